@@ -124,3 +124,80 @@ def signerLoop (fixed validate : Bool) (nArb : Nat) : List Nat → List Nat → 
     signerLoop fixed validate nArb rest (if validate then i :: seen else seen)
 
 end ElaVerif.CoinbaseTotal
+
+namespace ElaVerif.CoinbaseTotal
+open ElaVerif.Script
+
+/-! ### head of BlockChain.CheckBlockSanity (up to the coinbase-position tests) -/
+
+inductive BErr
+  | auxpow | pow | time | noTx | tooMany | headerSize | blockSize | firstNotCoinbase | secondCoinbase
+  deriving DecidableEq, Repr
+
+structure BlockIn where
+  auxOk : Bool        -- header.AuxPow.Check (its own crash-freedom: AuxPowTotal)
+  powOk : Bool        -- CheckProofOfWork
+  tsOk : Bool         -- both timestamp tests
+  maxTx : Nat         -- pact.MaxTxPerBlock
+  headerOk : Bool     -- header size test
+  sizeOk : Bool       -- block size test
+  txs : List Bool     -- per transaction: IsCoinBaseTx()
+  deriving Repr
+
+/-- `indexFirst = false`: the function in the tree (the `numTx == 0` rejection precedes `transactions[0]`);
+    `indexFirst = true`: the coinbase-position tests moved in front of it (negation witness).
+    `.val none` = the function goes on to the per-transaction checks. -/
+def blockSanityHead (indexFirst : Bool) (b : BlockIn) : R (Option BErr) :=
+  let coinbaseTests : R (Option BErr) :=
+    match b.txs with
+    | [] => .panic                                   -- `transactions[0]`
+    | t0 :: rest => if !t0 then .val (some .firstNotCoinbase)
+                    else if rest.any id then .val (some .secondCoinbase) else .val none
+  if !b.auxOk then .val (some .auxpow) else
+  if !b.powOk then .val (some .pow) else
+  if !b.tsOk then .val (some .time) else
+  if indexFirst then do
+    let r ← coinbaseTests
+    match r with
+    | some e => .val (some e)
+    | none =>
+      if b.txs.length = 0 then .val (some .noTx) else
+      if b.txs.length > b.maxTx then .val (some .tooMany) else
+      if !b.headerOk then .val (some .headerSize) else
+      if !b.sizeOk then .val (some .blockSize) else .val none
+  else
+    if b.txs.length = 0 then .val (some .noTx) else
+    if b.txs.length > b.maxTx then .val (some .tooMany) else
+    if !b.headerOk then .val (some .headerSize) else
+    if !b.sizeOk then .val (some .blockSize) else coinbaseTests
+
+/-! ### signer loop of ReturnDepositCoinTransaction.SpecialContextCheck -/
+
+inductive RdErr | sameAddr | signer | overspend
+  deriving DecidableEq, Repr
+
+/-- `for _, program := range t.Programs()`: a multi-sig code is looked up as it is, any other code by
+    `Code[1:len-1]`; `registered` tells whether `state.GetProducer` finds a producer for that key.
+    `nilCheckOnlyStandard = true` is the variant in which the `p == nil` test is skipped for multi-sig
+    codes (negation witness): `p.AvailableAmount()` on a nil producer panics. -/
+def rdLoop (nilCheckOnlyStandard : Bool) : List (Bytes × Bool) → R (Option RdErr)
+  | [] => .val none
+  | (code, registered) :: rest => do
+    let ms ← isMultiSig true code
+    if ms then
+      if !registered then (if nilCheckOnlyStandard then .panic else .val (some .signer))
+      else rdLoop nilCheckOnlyStandard rest
+    else
+      if code.length < 2 then .panic          -- `Code[1 : len(Code)-1]`
+      else if !registered then .val (some .signer)
+      else rdLoop nilCheckOnlyStandard rest
+
+def returnDepositCheck (variant : Bool) (addrCount : Nat) (progs : List (Bytes × Bool)) (overspend : Bool) :
+    R (Option RdErr) :=
+  if addrCount ≠ 1 then .val (some .sameAddr) else do
+    let r ← rdLoop variant progs
+    match r with
+    | some e => .val (some e)
+    | none => if overspend then .val (some .overspend) else .val none
+
+end ElaVerif.CoinbaseTotal
